@@ -15,6 +15,8 @@ Check ==
     [] Ev.t = "iterfrom" -> IF Ev.err # "" \/ Ev.out # IterFrom(ks, Ev.k) THEN "iterator-starting-at" ELSE "ok"
     [] Ev.t = "between" -> IF Ev.lo > Ev.hi THEN (IF Ev.err = "" THEN "between-lower-above-upper-not-rejected" ELSE "ok")
                            ELSE IF Ev.err # "" \/ Ev.out # IterBetween(ks, Ev.lo, Ev.hi) THEN "iterator-between" ELSE "ok"
+    [] Ev.t = "live" -> IF Ev.err # "" THEN "live-iterator-error"
+                        ELSE IF ~LiveIterOk(ks, ks \cup {Ev.late[i] : i \in 1..Len(Ev.late)}, Ev.kind, Ev.lo, Ev.hi, Ev.out) THEN "iterator-open-during-inserts" ELSE "ok"
     [] Ev.t = "pq" -> IF Ev.err # "" THEN "pq-error" ELSE IF ~MergeOk(Ev.inputs, Pairs(Ev.out)) THEN "pq-merge" ELSE "ok"
     [] OTHER -> "unknown-event"
 Step ==
